@@ -116,4 +116,12 @@ CHECKS = {
         "thorough": [sched("Harness_C20_linear_attempt_3", 32, timeout_ms=900000)],
         "assumptions": ["fairness: at most 2 failed non-blocking sends in total", "time is an arbitrary non-decreasing clock"],
     },
+    "C11": {
+        "explanation": "Lock-discipline obligations: every exported method (and unexported helper with its caller's lock) of Buffer, consumer, Channel, Workers, Worker and Exclusive.call is executed symbolically from an arbitrary valid state; on every path each access to a field listed in the guard table (engine/guards.go), and to the map / backing array behind it, holds the guarding lock in the required mode (ghost lockset in the sync models).",
+        "quick": [seq("Harness_C11_buffer_methods", allow_block=True), seq("Harness_C11_consumer_methods", allow_block=True), seq("Harness_C11_channel_methods", allow_block=True),
+                  seq("Harness_C11_workers_worker_methods", allow_block=True), seq("Harness_C11_exclusive_call", allow_block=True)],
+        "thorough": [],
+        "assumptions": ["sufficient lock-set condition, not a happens-before analysis", "guard table transcribed from struct comments; constructor writes before publication exempt",
+                        "atomic-only types (ChanCaster, ChanPubSub counters) are race-free by construction of sync/atomic; their hand-off edges are exercised by the interleaving harnesses of C06-C08"],
+    },
 }
